@@ -212,6 +212,9 @@ void msg_ops(G &g, int nops, bool with_names, bool with_replies, bool forged, bo
       int64_t flags = g.r.pct(25) ? (int64_t)g.r.below(4) : 0;
       std::string iface = ifaces[g.r.below(3)];
       if (type == 4 && iface.empty()) iface = ifaces[0];
+      // (the interfaces every connection implements are ordinary names in a signal; the bus's own library must
+      // not mistake a broadcast on org.freedesktop.DBus.Peer for a call to itself)
+      if (type == 4 && g.r.pct(8)) iface = g.r.pct(70) ? "org.freedesktop.DBus.Peer" : "org.freedesktop.DBus.Introspectable";
       std::string member = (type == 1 || type == 4) ? members[g.r.below(3)] : "";
       std::string path = (type == 1 || type == 4) ? paths[g.r.below(4)] : "";
       std::string err = type == 3 ? "com.example.Error.Oops" : "";
@@ -484,7 +487,8 @@ Plan gen_c07(uint64_t seed, bool th) {
       }
     } else if (x < 85) {
       // a broadcast signal built from the same vocabulary
-      std::vector<std::string> s = {"", kPaths[g.r.below(5)], kIfaces[g.r.below(3)], kMembers[g.r.below(3)], "", ""};
+      // (now and then a broadcast on one of the interfaces every connection implements: an ordinary signal)
+      std::vector<std::string> s = {"", kPaths[g.r.below(5)], g.r.pct(7) ? (g.r.pct(70) ? "org.freedesktop.DBus.Peer" : "org.freedesktop.DBus.Properties") : kIfaces[g.r.below(3)], kMembers[g.r.below(3)], "", ""};
       int na = (int)g.r.below(4);
       for (int k = 0; k < na; k++) {
         int tk = (int)g.r.below(100);
@@ -533,6 +537,15 @@ Plan gen_c13(uint64_t seed, bool th) {
   if (g.r.pct(45)) g.p.cfg["lim.replies"] = std::to_string(g.r.range(1, 3));
   if (g.r.pct(35)) g.p.cfg["lim.reply_timeout"] = std::to_string(g.r.pct(50) ? g.r.range(50, 2000) : 60000);   // slots are freed by replies, by the callee's departure, and by the timeout
   if (g.r.pct(30)) g.p.cfg["lim.msgsize"] = std::to_string(g.r.range(300, 2000));
+  bool full_queues = g.r.pct(15);
+  if (full_queues) {
+    // recipients that stall behind small socket buffers under a small max_outgoing_bytes: a call refused because
+    // the callee's queue is full earns LimitsExceeded "and changes nothing" - in particular it occupies no reply slot
+    g.p.cfg["lim.out_bytes"] = std::to_string(g.r.range(100, 2500));
+    g.sh.rxcap_small_pct = 70;
+    g.sh.lazy_drain = true;
+    if (!g.p.cfg.count("lim.replies")) g.p.cfg["lim.replies"] = std::to_string(g.r.range(1, 3));
+  }
   // in some plans the configuration is reloaded once with other limits (raised, lowered, removed, newly set):
   // refusals follow the limits in force, what is already held stays
   bool reload = g.r.pct(30);
@@ -551,7 +564,7 @@ Plan gen_c13(uint64_t seed, bool th) {
   auto connect = [&](bool hello) {
     int ni = next++;
     unsigned uid = g.sh.uids[g.r.below(g.sh.uids.size())];
-    g.add(g.mk("connect", ni, {(int64_t)uid, (int64_t)uid, 1000 + ni, 0, 0}));
+    g.add(g.mk("connect", ni, {(int64_t)uid, (int64_t)uid, 1000 + ni, 0, (full_queues && g.r.pct(70)) ? (int64_t)g.r.range(64, 4096) : 0}));
     if (g.r.pct(90)) g.add(g.mk("auth", ni, {1}));
     if (hello) g.add(g.mk("hello", ni, {-1}));
     g.sh.nclients = next;
@@ -565,6 +578,7 @@ Plan gen_c13(uint64_t seed, bool th) {
     int x = (int)g.r.below(100);
     if (reload && !reloaded && (g.r.pct(8) || i == nops / 2)) { g.add(g.mk("query", c, {-1}, {"ReloadConfig", ""})); reloaded = true; }
     else if (x < 14) connect(g.r.pct(80));
+    else if (x < 17 && full_queues) g.add(g.mk("stall", c, {g.r.pct(60) ? 1 : 0}));
     else if (x < 22) g.add(g.mk("hello", c, {-1}));                         // retry after a refused Hello (or a second Hello)
     else if (x < 32) g.add(g.mk("close", c));
     else if (x < 47) g.add(g.mk("reqname", c, {(int64_t)g.r.below(8), -1}, {g.a_name()}));
@@ -624,7 +638,7 @@ std::string valid_message_bytes(G &g, uint32_t serial) {
   if (k == 0) m = wire::Msg::method_call(serial, "org.freedesktop.DBus", "/org/freedesktop/DBus", "org.freedesktop.DBus", "ListNames");
   else if (k == 1) m = wire::Msg::method_call(serial, "org.freedesktop.DBus", "/org/freedesktop/DBus", "org.freedesktop.DBus", "RequestName",
                                               {wire::Value::string(g.a_name()), wire::Value::u32((uint32_t)g.r.below(8))});
-  else if (k == 2) m = wire::Msg::signal(serial, "/com/example/obj", "com.example.Iface", "Do", {wire::Value::string("hostile"), wire::Value::array("s", {wire::Value::string("x")})});
+  else if (k == 2) m = wire::Msg::signal(serial, "/com/example/obj", g.r.pct(25) ? "org.freedesktop.DBus.Peer" : "com.example.Iface", g.r.pct(50) ? "Do" : "Ping", {wire::Value::string("hostile"), wire::Value::array("s", {wire::Value::string("x")})});
   else if (k == 3) m = wire::Msg::method_call(serial, "org.freedesktop.DBus", "/org/freedesktop/DBus", "org.freedesktop.DBus", "AddMatch", {wire::Value::string("type='signal'")});
   else {
     simk::Rng r(g.r.next());
@@ -1332,6 +1346,12 @@ Plan gen_c14(uint64_t seed, bool th) {
       pol::Policy p = requested_replies_only_policy();
       { pol::Rule r = prule(false, pol::Rule::SEND); r.type = pol::Opt("signal"); r.interface = pol::Opt("com.example.Iface"); r.member = pol::Opt("Do"); p.blocks[0].rules.push_back(r); }
       { pol::Rule r = prule(false, pol::Rule::OWN); r.own = g.a_name(); p.blocks[0].rules.push_back(r); }
+      // rules whose attributes are what keeps them narrow (a name nobody owns, a prefix nobody uses): if parsing
+      // under memory pressure ever loses an attribute the rule turns into a blanket one and everything changes
+      if (g.r.pct(60)) { pol::Rule r = prule(false, pol::Rule::SEND); r.peer_prefix = pol::Opt("com.example.zzz"); p.blocks[0].rules.push_back(r); }
+      if (g.r.pct(40)) { pol::Rule r = prule(false, pol::Rule::SEND); r.peer = pol::Opt("com.example.nobody.here"); p.blocks[0].rules.push_back(r); }
+      if (g.r.pct(40)) { pol::Rule r = prule(false, pol::Rule::RECEIVE); r.peer = pol::Opt("com.example.nobody.here"); p.blocks[0].rules.push_back(r); }
+      if (g.r.pct(30)) { pol::Rule r = prule(false, pol::Rule::SEND); r.interface = pol::Opt("com.example.NoSuchIface"); r.member = pol::Opt("Never"); p.blocks[0].rules.push_back(r); }
       g.p.cfg["reload.policy.spec"] = pol::encode(p);
     }
     if (g.r.pct(50)) g.p.cfg["reload.activatable"] = g.r.pct(50) ? "com.example.act1" : "com.example.act1,com.example.act2";
